@@ -11,7 +11,7 @@ import tempfile
 
 from hypothesis import strategies as st
 
-from .. import REPO_SRC, VERIF_DIR, ensure_version_stub
+from .. import REPO_SRC, VERIF_DIR, die_with_parent, ensure_version_stub
 from .. import strategies as S
 from ..observe import CaseTimeout, freeze, guarded, walk_iter
 from ..unit import Outcome, Unit
@@ -323,7 +323,7 @@ def run_main(argv, stdin_bytes):
 
 def run_subprocess(argv, stdin_bytes):
     env = dict(os.environ, PYTHONPATH=REPO_SRC, PYTHONIOENCODING="utf-8")
-    p = subprocess.run([sys.executable, "-m", "multidecoder"] + argv, input=stdin_bytes, capture_output=True, env=env, cwd=VERIF_DIR, timeout=120)
+    p = subprocess.run([sys.executable, "-m", "multidecoder"] + argv, input=stdin_bytes, capture_output=True, env=env, cwd=VERIF_DIR, timeout=120, preexec_fn=die_with_parent)
     return p.stdout, p.stderr.decode("utf-8", "replace")
 
 
